@@ -32,7 +32,7 @@ def base_event(part):
     return {"part": part, "kind": "opt", "flags": 0, "hasShort": False, "dflt": "none", "role": "long", "name": [],
             "nonStr": False, "type": "str", "nullable": False, "isNone": False, "text": [], "hasF": False, "fnum": 0,
             "fden": 1, "obs": {"accepted": False, "cls": "", "nflags": 0, "dkind": "none", "preds": dict(NOPREDS),
-                               "res": dict(NORES)}}
+                               "res": dict(NORES), "reset": "n/a", "again": "n/a"}}
 
 
 _FALSY = [0, "", False, 0.0]
@@ -49,6 +49,11 @@ def observe_ctor(kind, flags, has_short, dflt):
     ev.update(kind=kind, flags=flags, hasShort=has_short, dflt=dflt)
     default = {"none": None, "scalar": "x", "list": ["x"], "falsy": _FALSY[(flags + has_short) % len(_FALSY)], "emptylist": []}[dflt]
     short = "o" if has_short else None
+    # the sibling class sees the same flag word first (its rules differ; whatever it decides must not reach this construction)
+    try:
+        CommandOption("sibling", short, None, flags) if kind == "opt" else Option("sibling", short, flags, None, default) if kind == "cmdopt" else None
+    except Exception:  # noqa
+        pass
     try:
         if kind == "opt":
             o = Option("option", short, flags, None, default)
@@ -67,6 +72,15 @@ def observe_ctor(kind, flags, has_short, dflt):
         ev["obs"].update(accepted=True, nflags=int(o.flags), dkind=dk, preds=preds)
     except Exception as e:  # noqa
         ev["obs"].update(accepted=False, cls=type(e).__name__)
+        return ev
+    if (kind == "arg" and not preds["required"]) or (kind == "opt" and preds["acceptsValue"]):   # (a value-less option / a required argument refuses set_default) the default withdrawn (set_default() / set_default(None)) and given again on the same object
+        try:
+            o.set_default() if (flags + has_short) % 2 else o.set_default(None)
+            ev["obs"]["reset"] = dkind_of(o.default)
+            o.set_default(default)
+            ev["obs"]["again"] = dkind_of(o.default)
+        except Exception as e:  # noqa
+            ev["obs"]["again"] = "exc:" + type(e).__name__
     return ev
 
 
@@ -179,8 +193,9 @@ def run(ctx):
         o = ev["obs"]
         ok = o["accepted"] == m["accepted"] and (
             (not m["accepted"] and o["cls"] == "ValueError")
-            or (m["accepted"] and o["nflags"] == m["nflags"] and o["dkind"] == m["dkind"] and o["preds"] == m["preds"])
-        )
+            or (m["accepted"] and o["nflags"] == m["nflags"] and o["dkind"] == m["dkind"] and o["preds"] == m["preds"]
+                and (m["kind"] == "cmdopt" or (m["kind"] == "opt" and not m["preds"]["acceptsValue"]) or (m["kind"] == "arg" and m["preds"]["required"]) or (o["reset"] == ("list" if m["preds"]["multi"] else "none") and o["again"] == m["dkind"])))
+        )   # a case that is not reproduced is decided by ElementsTrace below
         keep(ev, {"part": "ctor", "kind": m["kind"], "flags": m["flags"], "hasShort": m["hasShort"], "dflt": m["dflt"]}, ok)
         if bin(m["flags"] & (4031 if m["kind"] != "arg" else 503)).count("1") >= 2:
             ctx.nontriv(("c", m["kind"], m["flags"], m["hasShort"], m["dflt"]))
